@@ -47,6 +47,13 @@ Fixpoint upd {A} (l : list A) (j : nat) (x : A) : list A :=
   | a :: l', S j' => a :: upd l' j' x
   end.
 
+(* the initial state: every node holds the genesis beacon only, nothing is on the wire *)
+Definition init_sys (gen : beacon) (now : Z) (gs : list grp) : sys :=
+  mkSys now (map (fun g => mkS now [gen] [] 0 [] g None true) gs) [] [].
+
+Definition wire_eqb (a b : wire) : bool :=
+  let '(a1, a2, a3) := a in let '(b1, b2, b3) := b in (a1 =? b1) && (a2 =? b2) && (a3 =? b3).
+
 Section Net.
   Variable C : cfg.
   Variable idx_of : Z -> Z.
@@ -79,6 +86,28 @@ Section Net.
     end.
 
   Definition grun (y : sys) (gs : list gevent) : sys := fold_left gstep gs y.
+
+  (* executable admissibility of an event (sound for [gadm] of Proofs/NetProofs.v; it does not
+     cover sync streams and adversary-assembled beacons, which the system engine does not use).
+     thr_of / F_of: threshold and adversarial share indices per sharing; polys: the sharings that exist. *)
+  Definition now_dom_b (g now : Z) : bool := (now <? g) || ((g <=? now) && (now - g <=? 2 ^ 50)).
+  Definition gadm_b (thr_of : Z -> Z) (F_of : Z -> list Z) (polys : list Z) (y : sys) (g : gevent) : bool :=
+    match g with
+    | GClock d => (0 <=? d) && now_dom_b (c_genesis C) (y_time y + d)
+    | GNode j e =>
+        match e with
+        | EFire | EStop => true
+        | ETick rho None | ETickSF rho None => rho =? current_round (y_time y) (c_period C) (c_genesis C)
+        | ERestart None => true
+        | ETransition _ g' => g_thr g' =? thr_of (g_poly g')
+        | _ => false
+        end
+    | GDeliver j w => existsb (wire_eqb w) (y_pool y)
+    | GAdvPartial (r, p, sg) =>
+        forallb (fun P => negb (vpart P r p sg && negb (existsb (Z.eqb (idx_of sg)) (F_of P)))) polys
+        || existsb (wire_eqb (r, p, sg)) (y_pool y)
+    | GAdvBeacon _ => false
+    end.
 
   (* the observable trace of a run: after every event, the head round of every node *)
   Fixpoint gtrace (y : sys) (gs : list gevent) : list (list Z) :=
